@@ -196,11 +196,23 @@ def stats_of(r):
               t[4] if t[0] == "mkpool" and len(t) > 4 and t[1] == "simple" else "")
         if len(wm) > 1 and wm[0] == "g" and wm[1:].isdigit() and int(wm[1:]) > 0 and o.startswith("r=name:"):
             c["ma:specs_accepted"] += 1
+            # hook point `n`: pool calls the worker makes between two awaits
+            hi = 11 if op == "apply" else 12 if op == "map" else 10
+            if len(t) > hi and any(part.startswith("n:") for part in t[hi].split("|")):
+                c["ma:specs_with_next_hooks"] += 1
         for pi, sec in enumerate(o.split(" ## ")[1:]):
             if " ev=" not in sec:
                 continue
+            after_next = False      # the events right after an `N` are the results of the worker's pool calls there
             for e in sec.split(" ev=")[1].split(" ")[0].split(","):
+                if after_next and e.startswith("h["):
+                    c["ma:next_hook_calls"] += 1
+                    if e == "h[ok]":
+                        c["ma:next_hook_calls_ok"] += 1
+                    continue
+                after_next = False
                 if e[:1] == "N" and e[1:].isdigit():
+                    after_next = True
                     c["ma:N_events"] += 1
                     if (pi, e[1:]) not in had_next:
                         had_next.add((pi, e[1:]))
